@@ -30,6 +30,11 @@ type c01Op struct {
 	TagDir   string    `json:"tag_directive,omitempty"`
 	GW       int       `json:"gw"`
 	FragMode int       `json:"frag,omitempty"`
+	// mpu: CopyPart = the last part is an UploadPartCopy of a range of key Src; Algo = the checksum
+	// algorithm the upload is created with (every uploaded part then carries that checksum)
+	CopyPart bool `json:"copy_part,omitempty"`
+	CopyFrom int  `json:"copy_from,omitempty"`
+	CopyLen  int  `json:"copy_len,omitempty"`
 }
 
 type c01Prog struct {
@@ -127,6 +132,23 @@ func (c01) Gen(seed uint64, run int, tier string) *core.Case {
 			}
 			op.DataSeed = r.Uint64()
 			op.Hdrs, op.Meta, op.Tags = genContentHeaders(r), genMeta(r), genTags(r)
+			if r.IntN(2) == 0 {
+				op.Algo = s3c.TrailerAlgos[r.IntN(len(s3c.TrailerAlgos))]
+			}
+			if r.IntN(3) == 0 {
+				var ws []int
+				for k := range written {
+					if !strings.HasSuffix(p.Keys[k], "/") && k != op.Key {
+						ws = append(ws, k)
+					}
+				}
+				if len(ws) > 0 {
+					sortInts(ws)
+					op.CopyPart, op.CopyFrom, op.CopyLen = true, ws[r.IntN(len(ws))], r.IntN(3000)
+					// the copied part comes last: the uploaded parts before it must have the minimum part size
+					op.Parts = op.Parts[:np-1]
+				}
+			}
 			written[op.Key] = true
 		case x < 48 && !isDir:
 			op.Kind = "copy"
@@ -167,11 +189,18 @@ func (c01) Gen(seed uint64, run int, tier string) *core.Case {
 			op.Kind = "list"
 		}
 		p.Ops = append(p.Ops, op)
+		if op.Kind == "mpu" && op.CopyPart {
+			// the object a part was copied from is as it was
+			p.Ops = append(p.Ops, c01Op{Kind: "attrs", Key: op.CopyFrom, GW: r.IntN(cfg.Instances)})
+		}
 	}
 	// make sure every written key is read at the end
 	for k := range p.Keys {
 		if written[k] {
 			p.Ops = append(p.Ops, c01Op{Kind: "get", Key: k, GW: r.IntN(cfg.Instances)})
+			if r.IntN(2) == 0 {
+				p.Ops = append(p.Ops, c01Op{Kind: "attrs", Key: k, GW: r.IntN(cfg.Instances)})
+			}
 		}
 	}
 	c := &core.Case{Check: "C01", Property: "C01", Seed: seed, Cfg: cfg}
@@ -388,6 +417,9 @@ func (c01) Exec(c *core.Case) (out *core.Outcome) {
 			if len(op.Tags) > 0 {
 				h = append(h, KV{K: "X-Amz-Tagging", V: s3c.TaggingHeader(op.Tags)})
 			}
+			if op.Algo != "" {
+				h = append(h, KV{K: "X-Amz-Checksum-Algorithm", V: strings.ToUpper(op.Algo)})
+			}
 			res := cl.Do(s3c.CreateMPU(bkt, key, h...))
 			if !res.Resp.OK() {
 				o.Probe("mpu_refused")
@@ -404,13 +436,49 @@ func (c01) Exec(c *core.Case) (out *core.Outcome) {
 			for j, sz := range op.Parts {
 				d := s3c.GenData(op.DataSeed+uint64(j)+1, sz)
 				cl.GW = e.Route()
-				pr := cl.DoConn(s3c.UploadPart(bkt, key, init.UploadId, j+1, d), co)
+				var ph []KV
+				if op.Algo != "" {
+					ph = append(ph, KV{K: "X-Amz-Checksum-" + op.Algo, V: s3c.Checksum(op.Algo, d)})
+				}
+				pr := cl.DoConn(s3c.UploadPart(bkt, key, init.UploadId, j+1, d, ph...), co)
 				if !pr.Resp.OK() {
 					okAll = false
 					break
 				}
 				parts = append(parts, d)
-				cps = append(cps, s3c.CPart{N: j + 1, ETag: pr.Resp.Get("ETag")})
+				cp := s3c.CPart{N: j + 1, ETag: pr.Resp.Get("ETag")}
+				if op.Algo != "" {
+					cp.CkAlgo, cp.Ck = op.Algo, s3c.Checksum(op.Algo, d)
+				}
+				cps = append(cps, cp)
+			}
+			if src := model[op.CopyFrom]; okAll && op.CopyPart && src != nil && len(src.Data) > 0 && op.CopyFrom < len(p.Keys) {
+				// the last part is a server-side copy of a range of another object (which must stay as it is)
+				n := op.CopyLen
+				if n == 0 || n > len(src.Data) {
+					n = len(src.Data)
+				}
+				rng := fmt.Sprintf("bytes=0-%d", n-1)
+				if n == len(src.Data) && op.CopyLen%2 == 0 {
+					rng = ""
+				}
+				pr := cl.Do(s3c.UploadPartCopy(bkt, key, init.UploadId, len(op.Parts)+1, bkt, p.Keys[op.CopyFrom], rng))
+				if !pr.Resp.OK() {
+					o.Probe("part_copy_refused")
+					okAll = false
+				} else {
+					o.Probe("part_copied")
+					var cr struct {
+						ETag string
+					}
+					xml.Unmarshal(pr.Resp.Body, &cr)
+					parts = append(parts, src.Data[:n])
+					cp := s3c.CPart{N: len(op.Parts) + 1, ETag: cr.ETag}
+					if op.Algo != "" {
+						cp.CkAlgo, cp.Ck = op.Algo, s3c.Checksum(op.Algo, src.Data[:n])
+					}
+					cps = append(cps, cp)
+				}
 			}
 			if !okAll {
 				o.Probe("part_refused")
@@ -420,6 +488,7 @@ func (c01) Exec(c *core.Case) (out *core.Outcome) {
 			cr := cl.Do(s3c.CompleteMPU(bkt, key, init.UploadId, cps))
 			if !cr.Resp.OK() {
 				o.Probe("complete_refused")
+				o.Probe("complete_refused_" + cr.Resp.ErrCode())
 				continue
 			}
 			var all []byte
@@ -529,6 +598,17 @@ func (c01) Exec(c *core.Case) (out *core.Outcome) {
 					"sha256": at.Checksum.ChecksumSHA256, "crc64nvme": at.Checksum.ChecksumCRC64NVME}[want.CkAlgo]
 				if got != "" && got != want.CkVal {
 					viol(op, i, "attrs", fmt.Sprintf("attributes checksum %s=%s, want %s", want.CkAlgo, got, want.CkVal))
+				}
+			}
+			if at.Checksum != nil && !want.MP && at.Checksum.ChecksumType != "COMPOSITE" {
+				// whatever checksum is reported, of whichever algorithm, is the checksum of the bytes GET returns
+				// (a value declared COMPOSITE is a checksum of part checksums and is not judged)
+				for _, a := range s3c.TrailerAlgos {
+					got := map[string]string{"crc32": at.Checksum.ChecksumCRC32, "crc32c": at.Checksum.ChecksumCRC32C, "sha1": at.Checksum.ChecksumSHA1,
+						"sha256": at.Checksum.ChecksumSHA256, "crc64nvme": at.Checksum.ChecksumCRC64NVME}[a]
+					if got != "" && got != s3c.Checksum(a, want.Data) {
+						viol(op, i, "attrs", fmt.Sprintf("attributes checksum %s=%s is not the %s of the object's %d bytes (%s)", a, got, a, len(want.Data), s3c.Checksum(a, want.Data)))
+					}
 				}
 			}
 			o.AddClass("%s|%s|%s|attrs|ck=%s", wi[op.Key].kind, sizeClass(len(want.Data)), cfgc, want.CkAlgo)
